@@ -83,6 +83,8 @@ class ExecRun:
                            multi_operator_containers=bool(recipe['multi']))
         self.trace = []
         self.used = {}        # (op gid, cpus) -> script
+        self.info = {}        # cid -> dict(cpu, ram, ops, full script, pool, age, born)
+        self.next_cid = 0
 
     def cid(self, c):
         return int(c.container_id[1:]) - self.base
@@ -118,7 +120,27 @@ class ExecRun:
                                        self.w.ops[ops[0]].pipeline.pipeline_id if ops else 'none'))
             ent['pre_states'] = self.w.states()
             sus = [Suspend(f'c{self.base + cid}', pool) for (cid, pool) in tick['susp']]
+            prev = self.trace[-1]['pools'] if self.trace and not self.trace[-1]['err'] else []
+            prev_active = [c['cid'] for p in prev for c in p['active']]
+            ent['pre_pools'] = prev
             results = self.ex.run_one_tick(sus, asgs)
+            # containers created by this tick's batch: pools in order, assignments in order
+            new = []
+            for pid in range(self.r['npools']):
+                for (ops, cpu, ram, prio, pool) in tick['asg']:
+                    if pool == pid:
+                        full = [m for o in ops for m in self.used[(o, cpu)]]
+                        self.info[self.next_cid] = dict(cpu=cpu, ram=ram, ops=list(ops), full=full, pool=pid, age=0,
+                                                        born=len(self.trace), prio=prio)
+                        new.append(self.next_cid)
+                        self.next_cid += 1
+            suspended_now = {cid for (cid, _) in tick['susp']}
+            ent['new'] = new
+            ent['demand'] = {}
+            for cid in [c for c in prev_active if c not in suspended_now] + new:
+                inf = self.info[cid]
+                inf['age'] += 1
+                ent['demand'][cid] = inf['full'][inf['age'] - 1] if inf['age'] - 1 < len(inf['full']) else None
             ent['results'] = [dict(cid=int(r.container_id[1:]) - self.base, ops=[self.w.gid[o] for o in r.ops],
                                    cpu=r.cpu, ram=r.ram, prio=PRIO_VAL[r.priority], pool=r.pool_id,
                                    err=1 if r.failed() else 0) for r in results]
@@ -129,6 +151,11 @@ class ExecRun:
             ent['err'] = err_code(e)
             ent['exc'] = f'{type(e).__name__}: {e}'[:200]
             ent['states'] = self.w.states()
+            ent['pre_pools'] = self.trace[-1]['pools'] if self.trace else None
+            try:
+                ent['pools_after_err'] = self.snapshot()
+            except Exception:
+                ent['pools_after_err'] = None
         self.trace.append(ent)
         return ent
 
@@ -203,8 +230,9 @@ def make_case(recipe, run, mask, gen=None):
 # ------------------------------------------------------------------------------------------------
 # G-exec: state-aware command fuzzer
 
-def gen_segments(rng, tps, big=False):
-    """1-3 segments with tick counts of 0..6 each, sizes derived from the tick rate"""
+def gen_segments(rng, tps, cap, big=False):
+    """1-3 segments with tick counts of 0..6 each, sizes derived from the tick rate; peak demand kept
+    below `cap` most of the time (so that most containers can succeed)"""
     segs = []
     for _ in range(rng.choice([1, 1, 1, 2, 3])):
         io_t = rng.choice([0, 0, 1, 1, 2, 3, 5])
@@ -215,8 +243,8 @@ def gen_segments(rng, tps, big=False):
             read = max(read, rng.choice([1, 2, 4, 8]) * 1.0)
         cpu_secs = (cpu_t + rng.choice([0, 0.1, 0.5])) / tps * rng.choice([1, 1, 2, 3])
         s = dict(baseline_cpu_seconds=float(cpu_secs), cpu_scaling=rng.choice(LAWS), storage_read_gb=float(read))
-        if rng.random() < 0.4:
-            s['memory_gb'] = float(rng.choice([0, 0.25, 0.5, 1, 2, 3, 8]))
+        if rng.random() < 0.3 or (read > cap and rng.random() < 0.9):
+            s['memory_gb'] = float(rng.choice([m for m in [0, 0.25, 0.5, 1, 2, 3, 8] if m <= cap] or [0.25]))
         segs.append(s)
     return segs
 
@@ -224,16 +252,16 @@ def gen_segments(rng, tps, big=False):
 def gen_config(rng, overcommit=None):
     tps = rng.choice([1, 2, 4, 10, 16, 100])
     over = rng.random() < 0.5 if overcommit is None else overcommit
-    multi = rng.random() < 0.7
+    multi = rng.random() < 0.75
+    ram = rng.choice([1, 4, 16, 64, 100, 256]) if not over else rng.choice([4, 8, 16, 32])
     pipes, segs = [], []
     for _ in range(rng.randint(1, 5)):
         n = rng.randint(1, 5)
         dag = random_dag(rng, n, rng.choice([0.2, 0.5, 0.9]))
         pipes.append((rng.choice([1, 2, 3]), dag))
-        segs.append([gen_segments(rng, tps, big=over and rng.random() < 0.3) for _ in range(n)])
+        segs.append([gen_segments(rng, tps, ram / 2.0, big=over and rng.random() < 0.3) for _ in range(n)])
     return dict(tps=tps, over=int(over), multi=int(multi), npools=rng.randint(1, 3), cpu=rng.choice([1, 2, 4, 8, 16]),
-                ram=rng.choice([0.5, 1, 4, 16, 64, 100, 256]) if not over else rng.choice([4, 8, 16, 32]),
-                pipes=pipes, segs=segs, ticks=[])
+                ram=ram, pipes=pipes, segs=segs, ticks=[])
 
 
 def peak_of(run, op, cpu):
@@ -243,7 +271,7 @@ def peak_of(run, op, cpu):
 
 def dyadic_near(rng, x, lo=0.125):
     """a dyadic RAM size around x: mostly just enough, sometimes just too little"""
-    k = rng.choice([-1, 0, 1, 1, 1, 2, 2, 4, 8])
+    k = rng.choice([-1, 1, 1, 1, 1, 2, 2, 4, 8, 16])
     v = math.floor(x * 8 + k) / 8.0
     return max(lo, v)
 
@@ -281,8 +309,8 @@ def gen_tick(rng, run, bad=None):
     taken = set()
     avail = [[p.avail_cpu_pool, p.avail_ram_pool] for p in ex.pools]
     for _ in range(rng.choice([0, 1, 1, 2, 3])):
-        ready = [i for i, o in enumerate(w.ops) if st[i] in (0, 5) and i not in taken
-                 and all(st[w.gid[q]] == 4 for q in o.parents)]
+        ready = [i for i, o in enumerate(w.ops) if (st[i] == 0 or (st[i] == 5 and rng.random() < 0.4))
+                 and i not in taken and all(st[w.gid[q]] == 4 for q in o.parents)]
         if not ready:
             break
         op = rng.choice(ready)
